@@ -58,7 +58,7 @@ def strat_sources(draw, tier="quick"):
     n = draw(st.integers(1, 6))
     kind = draw(st.sampled_from(["rel_abs", "cor_cov", "rho_matrix", "scalar_vector", "rel_abs_matrix"]))
     vals = draw(st.lists(st.one_of(st.floats(0.1, 20), st.floats(-20, -0.1)), min_size=n, max_size=n))
-    return {"n": n, "kind": kind, "container": draw(st.sampled_from(["indexed", "xy_x", "xy_y"])), "values": vals,
+    return {"n": n, "kind": kind, "container": draw(st.sampled_from(["indexed", "xy_x", "xy_y", "hist"])), "values": vals,
             "err": draw(st.lists(st.floats(0.01, 3.0), min_size=n, max_size=n)), "rho": draw(st.sampled_from([0.0, 0.3, 0.7, 1.0])),
             "R": draw(S.corr_matrix(n)), "scalar": draw(st.floats(0.01, 3.0))}
 
@@ -66,6 +66,11 @@ def strat_sources(draw, tier="quick"):
 def _container(which, vals, n):
     if which == "indexed":
         c = _k("kafe2.fit.indexed.container").IndexedContainer(vals)
+        return c, (), "cov_mat"
+    if which == "hist":
+        # integer bin contents (the container stores them as integers): |round(v)| entries in bin i
+        ent = [i + 0.5 for i, v in enumerate(vals) for _ in range(int(abs(round(v))))]
+        c = _k("kafe2.fit.histogram.container").HistContainer(n, (0.0, float(n)), fill_data=ent)
         return c, (), "cov_mat"
     other = list(np.linspace(1.0, 2.0, n))
     XY = _k("kafe2.fit.xy.container").XYContainer
@@ -81,6 +86,8 @@ def run_sources(case):
     rho = float(case["rho"])
     R = np.array(case["R"], float)[:n, :n]
     kind = case["kind"]
+    if case["container"] == "hist":
+        vals = np.abs(np.round(vals))  # the reference of relative sources is the bin contents
     cA, pre, attr = _container(case["container"], vals, n)
     cB, _, _ = _container(case["container"], vals, n)
     labels = {kind, case["container"]}
@@ -411,7 +418,7 @@ def run_fits(case):
             hc = kafe2.HistContainer(len(edges) - 1, (edges[0], edges[-1]), bin_edges=edges, fill_data=ent)
             fe = kafe2.HistFit(hc, f_model, cost_function="gauss_approximation" if use_err else "poisson", density=spec.get("density", True))
             if use_err:
-                fe.add_error(1.5)
+                fe.add_error(np.full(len(edges) - 1, 1.5))  # the wrapper's scalar, written out as the constant vector
             finish_explicit(fe)
         try:
             fe.do_fit()
